@@ -133,6 +133,20 @@ func newRawDoH(c *dohCase, body []byte) (*rawDoH, error) {
 						send = append(send, "\r\n"...)
 					}
 					send = append(bytes.Clone(send), "0\r\n\r\n"...)
+				case "endless":
+					fmt.Fprintf(&w, "Transfer-Encoding: chunked\r\n\r\n")
+					conn.Write(w.Bytes())
+					chunk := append([]byte(fmt.Sprintf("%x\r\n", len(body))), body...)
+					chunk = append(chunk, "\r\n"...)
+					stop := time.Now().Add(50 * time.Second)
+					for time.Now().Before(stop) {
+						conn.SetWriteDeadline(time.Now().Add(time.Second))
+						if _, err := conn.Write(chunk); err != nil {
+							return
+						}
+						time.Sleep(5 * time.Millisecond)
+					}
+					return
 				case "closedelim":
 					fmt.Fprintf(&w, "\r\n")
 				case "short":
@@ -205,6 +219,9 @@ func runDohCase(c *dohCase, fullRetry bool) (diff string, env bool) {
 		return "DoH did not return (the specification's exchange terminates)", false
 	}
 	el := time.Since(t0)
+	if c.Fr == "endless" && el > watchdogLimit() {
+		return fmt.Sprintf("a response body that never ends kept DoH busy for %v: the size of a DNS message is bounded, the read must be too", el), false
+	}
 	if o.p != nil {
 		return fmt.Sprint("panic: ", o.p), false
 	}
